@@ -4,15 +4,17 @@
 
    Model: WH.Model.AuxReports.  `run gt_rule rec_rule pos_rule opts ids vcf_samples chromosomes` is the run-level
    model of the three writers over the list of per-(chromosome, family) results; the two switches are
-     wrule   PerCall = the file is opened with mode "w" by every call of the writer function (current code of
+     wrule   PerCall = the file is opened with mode "w" by every call of the writer function (code before commit 1fd343a of
                        write_changed_genotypes / write_recombination_list),
              PerRun  = opened once before the main loop, header once (ReadList; the repair of F9),
-     posrule ZeroBased = `position` column of the changed-genotype list is variant.position (current code),
+     posrule ZeroBased = `position` column of the changed-genotype list is variant.position (code before commit a4e9ec3),
              OneBased  = position + 1 = VCF POS (the repair; what the other two lists print).
      emptyrule Strict = find_recombination asserts len(positions) == len(recombcost) also for a family without
-                        accessible position, where both cost computers return [0] (current code: the run dies),
+                        accessible position, where both cost computers return [0] (code before commit 341691b: the run dies),
                EmptyOk = no event for such a family (the repair).
-   run_old = run PerCall PerCall ZeroBased Strict,  run_phase = run PerRun PerRun OneBased EmptyOk. *)
+   run_phase = run PerRun PerRun OneBased EmptyOk is the code as it is (the correspondence check demands exactly
+   this rule set); run_old = run PerCall PerCall ZeroBased Strict is the code before the three fix: commits and
+   occurs only in the _refuted witnesses and in the characterisation of what it left behind. *)
 From Coq Require Import ZArith List Bool Arith.
 From WH.Model Require Import AuxReports.
 From WH.Proofs Require Import AuxReportsProofs.
@@ -37,17 +39,17 @@ Print Assumptions C20_read_list_covers_run.
 
 (* Repaired writer rule (file opened once per run): the recombination list is the header followed by the
    events of every processed (chromosome, family). *)
-Theorem C20_recombination_list_covers_run_phase : forall gr pr er o ids vs cs out,
+Theorem C20_recombination_list_covers_run_repaired : forall gr pr er o ids vs cs out,
   o_recs o = true -> run gr PerRun pr er o ids vs cs = Some out ->
   exists calls,
     Forall2 (fun ci es => inst_rec_entries er (c_name (fst ci)) (snd ci) = Some es) (instances cs) calls /\
     out_recs out = Some (Header :: map Entry (concat calls)).
-Proof. exact recombination_list_covers_run_phase. Qed.
-Print Assumptions C20_recombination_list_covers_run_phase.
+Proof. exact recombination_list_covers_run_repaired. Qed.
+Print Assumptions C20_recombination_list_covers_run_repaired.
 
 (* Repaired writer rule: the changed-genotype list is the header followed by the changes of every
    processed chromosome. *)
-Theorem C20_changed_genotype_list_covers_run_phase : forall rr pr er o ids vs cs out,
+Theorem C20_changed_genotype_list_covers_run_repaired : forall rr pr er o ids vs cs out,
   o_gts o = true -> run PerRun rr pr er o ids vs cs = Some out ->
   exists calls,
     Forall2 (fun c es => exists wr,
@@ -55,10 +57,10 @@ Theorem C20_changed_genotype_list_covers_run_phase : forall rr pr er o ids vs cs
                es = concat (map fst wr))
             (filter c_selected cs) calls /\
     out_gts out = Some (Header :: map Entry (concat calls)).
-Proof. exact changed_genotype_list_covers_run_phase. Qed.
-Print Assumptions C20_changed_genotype_list_covers_run_phase.
+Proof. exact changed_genotype_list_covers_run_repaired. Qed.
+Print Assumptions C20_changed_genotype_list_covers_run_repaired.
 
-(* CURRENT code (finding F9): lists_cover_run is false for both overwritten lists.  Witness: a trio on two
+(* Code before commit 1fd343a (finding F9): lists_cover_run is false for both overwritten lists.  Witness: a trio on two
    chromosomes with a recombination and a changed genotype on the first one (wit_cs); both files end up with
    the header only. *)
 Theorem C20_lists_cover_run_refuted :
@@ -76,7 +78,7 @@ Theorem C20_lists_cover_run_refuted :
 Proof. exact lists_cover_run_refuted. Qed.
 Print Assumptions C20_lists_cover_run_refuted.
 
-(* What the current code leaves behind, for every run: the entries of the LAST call only (no file at all if
+(* What the PerCall rule (code before commit 1fd343a) leaves behind, for every run: the entries of the LAST call only (no file at all if
    nothing was processed). *)
 Theorem C20_recombination_list_current_last_only : forall gr pr er o ids vs cs out,
   o_recs o = true -> run gr PerCall pr er o ids vs cs = Some out ->
@@ -148,7 +150,7 @@ Theorem C20_changes_are_diffs_upto_position : forall rr pr er o ids vs cs out,
 Proof. exact changes_are_diffs_run. Qed.
 Print Assumptions C20_changes_are_diffs_upto_position.
 
-(* CURRENT position rule (second finding): even with the file opened once per run the listed entries are not
+(* ZeroBased position rule (second finding, code before commit a4e9ec3): even with the file opened once per run the listed entries are not
    the differences at their VCF positions (every entry points one base before the changed call). *)
 Theorem C20_changes_are_diffs_refuted :
   exists o ids vs cs out,
@@ -224,6 +226,16 @@ Theorem C20_spec_read_sound_accepts_model : forall gr rr pr er o ids vs cs out,
 Proof. exact model_passes_spec_read_sound. Qed.
 Print Assumptions C20_spec_read_sound_accepts_model.
 
+(* The event-by-event specification that the check evaluates on the real recombination list (expected_recs:
+   for every trio, every change of its transmission value between two neighbouring variants of one phase set,
+   the first of which is not the first variant of the set, with the haplotype and cost columns of that
+   change) contains every entry that the model's write_recombination_list produces for an instance. *)
+Theorem C20_model_entries_are_expected : forall er chromname i es e,
+  NoDup (map fst (i_comps i)) -> inst_rec_entries er chromname i = Some es -> In e es ->
+  In e (expected_recs chromname i).
+Proof. exact model_entries_are_expected. Qed.
+Print Assumptions C20_model_entries_are_expected.
+
 (* ================================================================ the run completes *)
 (* With recombination-cost vectors as long as the position lists (and components within the accessible
    positions) write_recombination_list never fails on an instance. *)
@@ -244,7 +256,7 @@ Theorem C20_recombination_entries_total_repaired : forall chromname i,
 Proof. exact inst_rec_entries_total_repaired. Qed.
 Print Assumptions C20_recombination_entries_total_repaired.
 
-(* CURRENT cost computers (third finding): both return a vector of length max 1 (#positions), so a family
+(* Strict rule (third finding, code before commit 341691b): both return a vector of length max 1 (#positions), so a family
    without accessible variant trips find_recombination's assertion: the run dies exactly when
    --recombination-list is given.  Witness: a trio whose two variants are homozygous in everybody. *)
 Theorem C20_run_completes_refuted :
@@ -270,14 +282,14 @@ Example C20_example_repaired :
     option_map (@length _) (out_reads out) = Some 6%nat.
 Proof. split; [vm_compute; reflexivity|]. eexists; split; [vm_compute; reflexivity|]. vm_compute. auto. Qed.
 
-(* the same run under the current rules: both lists hold the header only *)
+(* the same run under the old rules: both lists hold the header only *)
 Example C20_example_current :
   exists out, run_old wit_opts wit_ids wit_samples wit_cs = Some out /\
     out_recs out = Some [Header] /\ out_gts out = Some [Header] /\
     option_map (@length _) (out_reads out) = Some 6%nat.
 Proof. eexists; split; [vm_compute; reflexivity|]. vm_compute. auto. Qed.
 
-(* with only the first chromosome requested (--chromosome) the current code does list both entries,
+(* with only the first chromosome requested (--chromosome) the old code does list both entries,
    the genotype change with the 0-based position 399 *)
 Example C20_example_current_one_chromosome :
   let cs := [mkChrom 10 true (wit_recs [99; 199; 299; 399]) [wit_instA];
@@ -328,4 +340,10 @@ Example C20_example_total_repaired :
   length (i_costs wit_empty_inst) = Nat.max 1 (length (i_positions wit_empty_inst)) /\
   inst_rec_entries EmptyOk 10 wit_empty_inst = Some [] /\
   inst_rec_entries Strict 10 wit_empty_inst = None.
+Proof. vm_compute; auto. Qed.
+
+(* the specification side lists exactly the event of the witness instance *)
+Example C20_example_expected :
+  expected_recs 10 wit_instA = [mkCE 1 10 200 300 0 1 0 0 6] /\
+  inst_rec_entries repaired_emptyrule 10 wit_instA = Some [mkCE 1 10 200 300 0 1 0 0 6].
 Proof. vm_compute; auto. Qed.
